@@ -236,3 +236,14 @@ where
         // TODO: Limit iteration counts and add Err(PlanningError::NoSolutionFound)
     }
 }
+
+#[cfg(feature = "verif")]
+impl<S: State + Clone, SP: StateSpace<StateType = S>, G: Goal<S>> RRT<S, SP, G> {
+    /// Read-only snapshot of the search tree: `(state, parent index)` per node.
+    pub fn verif_tree(&self) -> Vec<(S, Option<usize>)> {
+        self.tree
+            .iter()
+            .map(|n| (n.state.clone(), n.parent_index))
+            .collect()
+    }
+}
